@@ -27,7 +27,14 @@ import (
 	"time"
 )
 
-const VerifDir = "/verif"
+// VerifDir is the root of the verification tree (evidence, replays, scratch work). VERIF_DIR overrides it so that
+// a background run in a snapshot does not write into /verif.
+var VerifDir = func() string {
+	if d := os.Getenv("VERIF_DIR"); d != "" {
+		return d
+	}
+	return "/verif"
+}()
 
 // Config describes one property check.
 type Config struct {
